@@ -182,12 +182,13 @@ class DefaultDeploymentManager(DeploymentManager):
 
     async def undeploy(self, deployment_name: str) -> None:
         if deployment_name in dict(self.deployments_map):
-            await self.events_map[deployment_name].wait()
+            event = self.events_map[deployment_name]
+            await event.wait()
             # Remove the deployment from the dependency graph
             self.dependency_graph[deployment_name].discard(deployment_name)
             # If there are no more inner deployments, undeploy the environment and clear the related data structures
             if len(self.dependency_graph[deployment_name]) == 0:
-                self.events_map[deployment_name].clear()
+                event.clear()
                 connector = self.deployments_map[deployment_name]
                 config = self.config_map[deployment_name]
                 if logger.isEnabledFor(logging.INFO):
@@ -200,7 +201,7 @@ class DefaultDeploymentManager(DeploymentManager):
                 if logger.isEnabledFor(logging.INFO):
                     if not config.external:
                         logger.info(f"COMPLETED undeployment of {deployment_name}")
-                self.events_map[deployment_name].set()
+                event.set()
             # Remove the current environment from all the other dependency graphs
             for name, deps in list(
                 (k, v) for k, v in self.dependency_graph.items() if k != deployment_name
